@@ -6,6 +6,30 @@ package humanize
 //@ func ByteSize
 //@   pure
 
+// public wrappers: read-only; with humanizing switched off the plain base-10 text; the unit
+// helpers pass their own arguments on with the right step and a full unit table
+//@ func Hi32
+//@   pure
+//@   ensures !Enabled ==> result == itoa(arg)
+//@ func Hi
+//@   pure
+//@   ensures !Enabled ==> result == itoa(arg)
+//@ func Hf
+//@   pure
+//@   assert at "return Hfd(" : $arg0 == arg
+//@ func Hfd
+//@   pure
+//@   assert at "return humanizeFloat(" : $arg0 == arg && $arg1 == decimals
+//@ func AlwaysByteSize
+//@   pure
+//@   assert at "return unitize(" : $arg1 == 1024 && $arg2 == precision && len($arg4) == 8
+//@ func AlwaysByteSizeSi
+//@   pure
+//@   assert at "return unitize(" : $arg1 == 1000 && $arg2 == precision && len($arg4) == 8
+//@ func AlwaysDownscale
+//@   pure
+//@   assert at "return unitize(" : $arg0 == n && $arg1 == 1000 && $arg2 == precision && len($arg4) == 5
+
 // unit scaling: the unit table is never empty and the rank stays inside it
 //@ func unitize
 //@   requires len(units) >= 1
@@ -23,8 +47,10 @@ package humanize
 //@ (assert (forall ((v Int)) (! (=> (<= v 18446744073709551615) (<= (dec_digits v) 20)) :pattern ((dec_digits v)))))
 //@ end
 //@ func humanizeInt
+//@   pure
 //@   loop 1 invariant 0 <= ci && ci <= 3 && idx <= 31 && (31 - idx - ci) % 4 == 0 && (31 - idx) - fdiv(31 - idx - ci, 4) + dec_digits(v) <= 20
 
 // float grouping: the integer part ends at or before the end of the formatted number
 //@ func humanizeFloat
-//@   loop 1 invariant 0 <= i && 0 <= decIdx && decIdx <= len(s)
+//@   pure
+//@   loop 1 invariant 0 <= i && 0 <= decIdx && decIdx <= len(s) && fresh(ret)
